@@ -324,12 +324,20 @@ func (c Config) Options() *tsdb.Options {
 	return o
 }
 
-// Start opens a fresh database.
+// Start opens a fresh database in a new temporary directory.
 func Start(h History, rec *ev.Rec) (*Run, error) {
 	dir, err := os.MkdirTemp("", "tsdbrun")
 	if err != nil {
 		return nil, err
 	}
+	return StartDir(h, rec, dir)
+}
+
+// RiskBound exposes the bound of the known finding ooo-block-merged-raises-restart-bound.
+func (r *Run) RiskBound() int64 { return r.riskBound }
+
+// StartDir opens a database in the given (empty or existing) directory.
+func StartDir(h History, rec *ev.Rec, dir string) (*Run, error) {
 	r := &Run{Cfg: h.Cfg, Dir: dir, Rec: rec, Apps: map[int]*appState{}, Did: map[string]int{}, CheckAdmission: true,
 		oooDeleteSurvivors: map[int]map[int64]bool{}, deletedRanges: map[int][][2]int64{}, hiddenCands: map[int]map[int64]bool{}, oooULIDs: map[string]bool{}, riskBound: math.MinInt64, lastRef: map[int]storage.SeriesRef{}, createdThisSession: map[int]bool{}, headDeleted: map[int]map[int64]int{}, everCreated: map[int]bool{}, dupStage: map[int]int{}, creator: map[int]int{}, established: map[int]bool{}, tainted: map[int]bool{}, taintedReopened: map[int]bool{}}
 	r.M = tm.New(h.Cfg.NSeries, h.Cfg.ChunkRange, h.Cfg.OOOWindow)
